@@ -377,7 +377,7 @@ PROPS['C14'] = dict(
     rule='case = (table of 1-4 dims, order 0-5 in the convolved dimension, any dimension index, irregular knots, kernel of 2-6 increasing knots, symmetric or not, 0.05x-5x the knot spacing) x 10-60 points; '
          'distinct_nontrivial counts distinct (table, kernel, point) triples with M>0',
     assumptions=ASSUME_COMMON,
-    require={'any': {'points-checked': 1500, 'C-wrapper-comparisons': 100, 'order:0': 5, 'order:5': 5, 'concurrent-convolution-rounds': 150, 'axis-unit:1e-09': 20}},
+    require={'any': {'points-checked': 1500, 'C-wrapper-comparisons': 100, 'order:0': 5, 'order:5': 5, 'concurrent-convolution-rounds': 150, 'axis-unit:1e-09': 20, 'aliasing-kernel-comparisons': 40}},
 )
 PROPS['C15'] = dict(
     level_text='Exhaustive over all 153 permutations of 1-5 dimensions (plus sampled 6-d ones) on tables whose axes have pairwise different lengths, orders, extents and periods: every per-dimension attribute, '
